@@ -183,7 +183,7 @@ def roundtrip_case(draw, tier):
     b = draw(st.integers(0, 10 - a))
     dur = draw(st.sampled_from([nticks / tps + 0.5 / tps, nticks / tps, nticks * (1.0 / tps), float(nticks // tps + 1)]))
     params = {"ticks_per_second": tps, "duration": dur, "random_seed": draw(st.integers(0, 10 ** 6)),
-              "waiting_seconds_mean": draw(st.sampled_from([1.0, 0.3, 2.5, 0.7, 5.0])) * draw(st.sampled_from([1, 10 / tps if tps > 10 else 1])),
+              "waiting_seconds_mean": draw(st.sampled_from([1.0, 0.3, 2.5, 0.7, 5.0, 0.1 / tps, 0.1 / tps])) * draw(st.sampled_from([1, 10 / tps if tps > 10 else 1])),
               "num_pipelines": draw(st.integers(1, 3)), "num_operators": draw(st.integers(1, 4)),
               "cpu_io_ratio": draw(st.sampled_from([0.5, 0.0, 1.0])),
               "interactive_prob": a / 10, "query_prob": b / 10, "batch_prob": (10 - a - b) / 10}
